@@ -50,7 +50,8 @@ const (
 	OptionalExponent = `(?:[eE]-?\d+)?`
 	FloatDec         = `(?:` + IntegerDec + OptionalFraction + OptionalExponent + `)`
 
-	IntegerPattern = `\A` + SignPrefix + `(?:` + IntegerDec + `|` + IntegerHex + `|` + IntegerOct + `|` + IntegerBin + `)\z`
+	// Leading zeroes are accepted. The digits are interpreted using the radix given to the Integer constructor
+	IntegerPattern = `\A` + SignPrefix + `(?:(?:\d+)|` + IntegerHex + `|` + IntegerBin + `)\z`
 	FloatPattern   = `\A` + SignPrefix + `(?:` + FloatDec + `|` + IntegerHex + `|` + IntegerOct + `|` + IntegerBin + `)\z`
 )
 
